@@ -39,6 +39,10 @@ Definition null_read_in_bounds (a : parr) (i : nat) : bool :=
   | Some nb => ((nb_off nb + i) / 8 <? length (nb_bytes nb))%nat
   end.
 
+(* run ends of a run-end child, as the specification reads them *)
+Definition ree_ends (r : parr) (rw : nat) : list Z :=
+  map (fun k => sle_at (nth 0 (p_bufs r) []) rw (p_off r + k)) (seq 0 (p_len r)).
+
 (* child slots dereferenced by value(i): (child index, first slot, number of slots) *)
 Definition child_slots (a : parr) (i : nat) : list (nat * Z * Z) :=
   let off := p_off a in
@@ -54,8 +58,35 @@ Definition child_slots (a : parr) (i : nat) : list (nat * Z * Z) :=
         let k := if ksigned then sle_at (buf a 0) kw (off + i) else Z.of_N (le_at (buf a 0) kw (off + i)) in
         [(0%nat, k, 1%Z)]
       else []
+  (* GenericListViewArray::value: child.slice(offsets[i], sizes[i]) *)
+  | TListView large _ _ =>
+      let w := offw large in
+      [(0%nat, sle_at (buf a 0) w (off + i), sle_at (buf a 1) w (off + i))]
+  (* UnionArray::value: child(type_ids[i]) at offsets[i] (dense) or at the same physical slot (sparse) *)
+  | TUnion dense fs =>
+      match index_of (sle_at (buf a 0) 1 (off + i)) (type_ids fs) 0 with
+      | Some ci => [(ci, if dense then sle_at (buf a 1) 4 (off + i) else Z.of_nat (off + i), 1%Z)]
+      | None => []
+      end
+  (* RunArray / TypedRunArray::value: RunEndBuffer::get_physical_index is a partition point over ALL run ends
+     (x <= offset + i), then values[physical] *)
+  | TRee rw _ =>
+      match kid a 0 with
+      | Some r =>
+          [(0%nat, 0%Z, Z.of_nat (p_len r));
+           (1%nat, Z.of_nat (length (filter (fun e => (e <=? Z.of_nat (off + i))%Z) (ree_ends r rw))), 1%Z)]
+      | None => []
+      end
   | _ => []
   end.
 
 Definition child_slots_in_bounds (a : parr) (c : nat * Z * Z) : bool :=
   let '(j, s, n) := c in (0 <=? s)%Z && (0 <=? n)%Z && (s + n <=? Z.of_nat (kid_len a j))%Z.
+
+(* an accessor chain: from logical slot i of node a, value(i) hands out child slots, on which value() is called
+   again, and so on, to any depth; [reach a i b m] = some chain starting at slot i of a arrives at slot m of node b *)
+Inductive reach : parr -> nat -> parr -> nat -> Prop :=
+| reach_here a i : reach a i a i
+| reach_step a i j s n c k b m :
+    In (j, s, n) (child_slots a i) -> kid a j = Some c -> (s <= Z.of_nat k < s + n)%Z ->
+    reach c k b m -> reach a i b m.
